@@ -1,5 +1,18 @@
 """Targeted cases: one or more texts for every loader error path / special path that Loader.v models."""
 CASES = [
+    # ---- rule-sets without a declared JSON type / with a format type: every rule narrows the JSON types (fix 0e80d2e); items unquoted once (86f69d0)
+    "\"b\" // {or: [{type: \"email\", min: 1}, {type: \"string\"}]}", "\"b\" // {or: [{type: \"email\", minItems: 1}, {type: \"string\"}]}",
+    "\"b\" // {or: [{type: \"date\", additionalProperties: true}, {type: \"string\"}]}", "\"b\" // {or: [{type: \"uri\", max: 1}, {type: \"string\"}]}",
+    "\"b\" // {or: [{type: \"decimal\", precision: 1, minLength: 2}, {type: \"string\"}]}", "\"b\" // {or: [{type: \"decimal\", precision: 1, minItems: 1}, {type: \"string\"}]}",
+    "\"b\" // {or: [{min: 1, minItems: 2}, {type: \"string\"}]}", "\"b\" // {or: [{precision: 1, minLength: 2}, {type: \"string\"}]}", "\"b\" // {or: [{regex: \"a\", max: 3}, {type: \"string\"}]}",
+    "\"b\" // {or: [{type: \"uuid\", regex: \"a\"}, {type: \"string\"}]}", "\"b\" // {or: [{minLength: 1}, {type: \"string\"}]}", "\"b\" // {or: [{min: 1, max: 3}, {type: \"string\"}]}",
+    "\"b\" // {or: [{type: \"email\"}, {type: \"string\"}]}", "\"b\" // {or: [{type: \"decimal\", precision: 2}, {type: \"string\"}]}", "\"b\" // {or: [{nullable: true, min: 1, minLength: 1}, {type: \"string\"}]}",
+    "\"b\" // {or: [{type: \"any\", min: 1}, {type: \"string\"}]}", "\"b\" // {or: [{type: \"mixed\", min: 1, minLength: 1}, {type: \"string\"}]}", "\"b\" // {or: [{type: \"enum\", enum: [1], min: 1}, {type: \"string\"}]}",
+    "\"b\" // {or: [{const: true, minItems: 1}, {type: \"string\"}]}", "\"b\" // {or: [{additionalProperties: true, minItems: 1}, {type: \"string\"}]}",
+    "1 // {or: [\"\\\"string\\\"\", \"@a\"]}", "1 // {or: [\"\\\"@b\\\"\", \"@a\"]}", "1 // {or: [\"\\u0073tring\", \"@a\"]}", "1 // {or: [\"string\", \"\\u0040a\"]}",
+    "1 // {or: [{\"enum\": [1, 2]}, {type: \"string\"}]}", "1 // {or: [{enum : [1, 2]}, {type: \"string\"}]}", "1 // {or: [{\"\\u0065num\": [1, 2]}, {type: \"string\"}]}",
+    "@a | @b // {type: \"integer\", type: \"mixed\"}", "@a | @b // {type: \"mixed\", type: \"integer\"}", "@a | @b // {type: \"mixed\", type: \"mixed\"}", "@a // {type: \"@a\", type: \"mixed\"}",
+    "1 /* {enum: [ // zero\n // one\n 1 // two\n]} */", "1 /* {enum: [ // zero\n]} */",
     # ---- no example / annotation first
     "", " ", "\n", "# c", "// {min: 1}", "// note", "/* {min: 1} */", "// {min: 1}\n1", "\n// {}\n1", "// {}", "// {} - x",
     # ---- 803 rule without example, 804 several nodes
